@@ -340,6 +340,13 @@ def sub_of(qe, new_execution):
     return subrun(qe.eval(), executor="default", new_execution=new_execution)
 
 
+@task()
+def sub_of_cfg(qe, new_execution, config):
+    """as sub_of, with an explicit sub-scheduler config (a prov=False caller cannot share a sqlite file with the
+    sub-scheduler: redun's own test_subrun_no_prov gives the sub-scheduler its own database)"""
+    return subrun(qe.eval(), executor="default", new_execution=new_execution, config=config)
+
+
 # ------------------------------------------------------------------ async tasks (free-running modes only)
 @task(cache=True, check_valid="shallow")
 async def a_inc(x):
